@@ -264,6 +264,8 @@ class Shapes:
             b = self.shape(base, facts, fi, ps, res, d)
             if b <= {E}:
                 return frozenset({E})
+            if idx[1] == ("const", None) and idx[2] == ("const", None) and b <= STR:
+                return b        # x[:], x[::-1]: a copy / reversal has as many elements as x
             if b <= STR | {N}:
                 return STR
             return STR
